@@ -359,6 +359,29 @@ func runC07(c *Ctx) {
 		"the number of segments generated for a fixed-size variable is compared for equality with the template's segment count",
 		"the generated segment count of a multi-segment variable is not required to EQUAL the template's count (comparisons found: "+joinStr(ops)+"): a value with extra segments spills into the following template segments and re-parses to a different message")
 
+	// ---------------------------------------------------------------- C07.6
+	c.Rule("C07.6", "query parameters generated inside loops are added, not overwritten", 1)
+	encFn := p.MustFunc("httpEncodePathValues")
+	nQ := 0
+	for _, fn := range SortedFuncs(p.Reach(encFn)) {
+		if !p.inScope(fn) {
+			continue
+		}
+		for _, call := range Calls(fn) {
+			if !IsCallTo(call, "(net/url.Values).Set", "(net/url.Values).Add") {
+				continue
+			}
+			nQ++
+			inLoop, _ := MayReach(fn, call, func(in ssa.Instruction) bool { return in == ssa.Instruction(call) })
+			isSet := IsCallTo(call, "(net/url.Values).Set")
+			c.Check(!(isSet && inLoop), "C07.6", FuncName(fn), "query-multi-value", call.Pos(),
+				"query values produced in a loop are appended with Add", "url.Values.Set inside a loop: every element of a repeated field overwrites the previous one, the REST backend receives only the last")
+		}
+	}
+	if nQ == 0 {
+		c.Bad("C07.6", FuncName(encFn), "query-multi-value", encFn.Pos(), "no query value generation found: shape changed")
+	}
+
 	// ---------------------------------------------------------------- C07.4
 	c.Rule("C07.4", "the needs-preparation predicate consults every input source the preparer consumes", 3)
 	needs := p.MethodOf(rcp, "requestNeedsPrep")
